@@ -7,6 +7,9 @@ import traceback
 
 sys.path.insert(0, os.path.dirname(os.path.abspath(__file__)))
 import common  # noqa: E402
+import faulthandler
+import signal
+faulthandler.register(signal.SIGUSR1, all_threads=True)
 
 
 def generic_replay(pid, mod, res, data):
